@@ -98,8 +98,9 @@ def inv_body(body):
 
 def gate_params(rec):
     if rec['kind'] in ('block', 'iblock'):
+        # an inverse block is DaggerGate(CircuitGate(inner)) and carries the INNER circuit's parameters, in the inner order
         out = []
-        for b in rec['body']:
+        for b in (inv_body(rec['body']) if rec['kind'] == 'iblock' else rec['body']):
             out += gate_params(b)
         return out
     if rec['kind'] == 'barrier':
